@@ -46,9 +46,12 @@ LIFT_RULE = ("well-formed chain files from the structured generator (1-6 chains;
 
 PROPS.update({
     "C01": dict(props=["Props/C01.v"], profiles=["debug"], gen=props2.gen_C01,
-                rule=LIFT_RULE + "One case = one file with 24 intervals; zero-length blocks in 20% of the files. Non-trivial = all; distinct = distinct case lines."),
+                rule=LIFT_RULE + "One case = one file with 24 intervals; zero-length blocks in 20% of the files. Thorough adds a completely "
+                     "enumerated small scope: one chain, four strand pairs, 1-3 blocks of size 0..2, five gap shapes, offsets 0/1, every interval "
+                     "[a,b) with 0<=a<=b<=size+1 on both strands. Non-trivial = all; distinct = distinct case lines."),
     "C02": dict(props=["Props/C02.v"], profiles=["debug"], gen=props2.gen_C02,
-                rule=LIFT_RULE + "One case = one file (no zero-length blocks) with 24 intervals. Non-trivial = all; distinct = distinct case lines."),
+                rule=LIFT_RULE + "One case = one file (no zero-length blocks) with 24 intervals. Thorough adds the completely enumerated small "
+                     "scope of C01 with block sizes 1..2. Non-trivial = all; distinct = distinct case lines."),
     "C03": dict(props=["Props/C03.v"], profiles=["debug"], gen=props2.gen_C03,
                 rule="canonical well-formed files (must be accepted) and for each the corruption catalogue at sampled positions: data "
                      "field +-k, 2/4 fields, non-numeric, out of range, blank/junk/header inserted inside a section, header start/end +-k on "
